@@ -13,11 +13,31 @@ package main
 // pointer receivers.
 
 import (
+	"go/ast"
 	"go/types"
 	"path/filepath"
 	"sort"
 	"strings"
 )
+
+// smallBody: at most 8 statements (counted recursively) and no loop.
+func smallBody(fi *FuncInfo) bool {
+	if fi == nil || fi.Decl.Body == nil {
+		return false
+	}
+	n := 0
+	small := true
+	ast.Inspect(fi.Decl.Body, func(nd ast.Node) bool {
+		switch nd.(type) {
+		case *ast.ForStmt, *ast.RangeStmt:
+			small = false
+		case ast.Stmt:
+			n++
+		}
+		return small
+	})
+	return small && n <= 10
+}
 
 func (w *World) applySweeps() {
 	var keys []string
